@@ -38,7 +38,7 @@ CHECKS = {
     "C12": ("model_checking",
             "stateless model checking of the real implementation: exhaustive depth-first enumeration of all thread schedules up to a preemption bound under a cooperative scheduler (hand-written; sync primitives of the two semaphore files mechanically rewritten), in lock step with sequential reference models; exhaustive request-grid enumeration for the normalisation function",
             "resource_semaphore.go and maxjobs_semaphore.go are compiled with sync.Mutex / sync.Cond / <-c / close(c) replaced by scheduler-aware equivalents, every go statement of package core by a scheduler spawn and executeLocal by a harness job body. ALL schedules with at most 2 (thorough 3) preemptions are enumerated for (a) 1550 ResourceSemaphore scenarios (limit 4; 2-3 threads doing Acquire(n)/hold/Release(n) with n in 1..5, re-acquiring threads, observers, an updater doing 1-2 of 8 UpdateActual/UpdateSize/UpdateFreeUsed operations): after EVERY critical section the real reserved / current size / queue are compared with a FIFO reference model stepped with the same operation, plus reserved <= limit, oldest-waiter-fits => granted, the holders' own ledger <= limit, and at quiescence the granted / refused / blocked threads equal the model's; (b) 1080 MaxJobsSemaphore scenarios (limits 1-2; blocking, non-blocking and never-released submitters, duplicate metadata, cancellation while waiting, FindDone): slot set equals the model after every critical section, slots <= limit, submitted-and-unfinished jobs <= limit, Acquire results equal the model's, nobody waits while a slot is free at quiescence; (c) 420 LocalJobManager.Enqueue scenarios through the real GetSystemReqs + cores->memory->vmem acquisition + deferred release (2-3 jobs from 9 request shapes incl. zero, fractional, over the limit, adaptive; with and without a vmem limit): summed reservations of simultaneously running jobs <= limits, every job runs, nothing stays reserved; (d) GetSystemReqs on a grid of 36 limit settings x 4 availabilities x 1456 requests. Every violating schedule is replayed and must reproduce before it is reported; replay files hold scenario + choice sequence.",
-            "sync.Cond.Signal wakes the longest waiter (Go's notifyList); memory-model effects below mutex granularity are not modelled (accesses are all under the mutexes); availability updates come from a fixed menu rather than the OS; the remote manager's qsub path and procsSem are not driven; preemption bound 2/3, thread count <= 4; one known finding (request beyond int64)",
+            "sync.Cond.Signal wakes the longest waiter (Go's notifyList); memory-model effects below mutex granularity are not modelled; that all accesses are under the mutexes is guarded by a free-running -race pass of the same scenario bodies on the unmodified files (checks/c12race, evidence key race_pass); availability updates come from a fixed menu rather than the OS; the remote manager's qsub path and procsSem are not driven; preemption bound 2/3, thread count <= 4; one known finding (request beyond int64)",
             "DESIGN.md 4/C12"),
     "C13": ("exploration",
             "exhaustive enumeration of top-level output signatures x leaf modes x mapping/wrapping, run on the real runtime and post-processor, type-directed before/after walk of the outputs record",
